@@ -60,6 +60,10 @@ impl Shared {
     }
     fn note_panic(&mut self) -> String {
         let (loc, msg) = crate::take_panic().unwrap_or(("?".into(), "?".into()));
+        if msg.starts_with("scenario:") {
+            eprintln!("bad scenario {}: {}", self.sc["id"], msg);
+            std::process::exit(2);
+        }
         let site = crate::panic_site(&loc);
         if self.panicked.is_none() {
             self.panicked = Some((site.clone(), msg));
@@ -171,6 +175,14 @@ fn run_program<'a>(
                         q.error(k, &m[..])
                     }
                     ("no_more_results", WS::Q(q)) => q.no_more_results(),
+                    // a database-switch script that ended up in on_query/on_execute (mis-routing is
+                    // judged by the monitor, not by the harness)
+                    ("init_ok", WS::Q(q)) => q.completed(0, 0),
+                    ("init_err", WS::Q(q)) => {
+                        let k = kind_by_name(op["kind"].as_str().unwrap()).expect("scenario: kind");
+                        let m = parse_bytes(&op["msg"]);
+                        q.error(k, &m[..])
+                    }
                     ("drop", WS::Q(q)) => {
                         drop(q);
                         Ok(())
